@@ -9,6 +9,13 @@ CLAIMED = {
         note="Necessary structural conditions; trusts clang's CFG, the skeleton extraction, std::map semantics. Does not decide that stored terms give the intended matrix (C04) nor allocation-failure safety.",
         technique="CFG must-dataflow of branch facts + dominance + exception summaries with call-site discharge (custom libTooling extractor, Python rule engine)",
         ref="DESIGN.md §3 C20"),
+    "C18": dict(
+        text="Static analysis of IndexClassification: in both ordering modes the loop nest that writes IndicesToInfo enumerates exactly {site} x [0,OrbitalSize) x [0,SpinSize) "
+             "(full-range loops, per-site filter only as the exact complement of the range test, no truncating break/return), one counter increment per write from 0, "
+             "table sized to the sum of sizes, inverse table filled over [0,IndexSize), getInfo/getIndex read under bound / found-edge. All CFG paths.",
+        note="Decides the bijection's structural necessary conditions; relabelling invariance of physics (relational, value level) is not decided. IndexInfo::operator< hash ordering is noted, not armed.",
+        technique="loop-nest shape analysis + branch-fact must-dataflow over clang CFG (custom libTooling extractor)",
+        ref="DESIGN.md §3 C18"),
 }
 
 NOT_YET = {}
